@@ -9,6 +9,7 @@ mkdir -p coq/Generated
 ./build/genconsts > build/Consts.v.new
 cmp -s build/Consts.v.new coq/Generated/Consts.v || cp build/Consts.v.new coq/Generated/Consts.v
 bash coq/gen.sh
-(cd coq && timeout 3000 make -j$(bash ./jobs.sh) COQC='timeout 1500 coqc' > ../build/coq-build.log 2>&1) || { tail -40 build/coq-build.log; exit 1; }
+# -k: a file that fails to compile only affects the checks whose theorems depend on it (each check rebuilds what it needs)
+(cd coq && timeout 3000 make -k -j$(bash ./jobs.sh) COQC='timeout 1500 coqc' > ../build/coq-build.log 2>&1) || { echo 'WARNING: some Coq files failed to build:'; grep -E 'Error|\*\*\*' build/coq-build.log | head -20; }
 bash ocaml/build.sh || echo 'WARNING: some model drivers failed to build'
 echo setup done
